@@ -615,7 +615,7 @@ def run(tier, pid="C12"):
         if len(rep.violations) >= 3:
             break
     rng = random.Random(rep.seed * 7919 + 12)
-    nrand = 800 if quick else 6000
+    nrand = 600 if quick else 6000
     for j in range(nrand):
         if len(rep.violations) >= 3:
             break
